@@ -965,3 +965,72 @@ def number_minus_is_arithmetic(ctx):
                                                        if want_split else "an unquoted date literal must stay one token"))
     ctx.covered("numbers and dates followed by `-` lexed by interpretation (operator vs. date literal)", n, distinct_keys=["numbers", "dates"], exhaustive=False)
     ctx.floor(n, 14, "number-minus spellings lexed", nx)
+
+
+def memo_key_complete(ctx):
+    """a map kept in `self` that a function consults before computing and fills afterwards (a memo) must be keyed by everything
+    the stored value depends on: every parameter of the function that the inserted value - or a condition the insertion stands
+    under - is computed from must also flow into the key.  (`owner_name(id, group)` caching under `id` alone answers "user 4" and
+    "group 4" with whichever was asked first.)  Parameter granularity: two parts of one parameter are not told apart - the
+    pattern cache of `conforms`, keyed by a part of `expr`, is C12-R2's business."""
+    n_sites, n_fns = 0, 0
+    for name in sorted(ctx.prog.fns):
+        f = ctx.prog.fns[name]
+        if "hir" not in f or not f.get("params"):
+            continue
+        h = f["hir"]
+        sites = []
+        for x in walk_exprs(h):
+            if x["k"] == "MCall" and x["m"] == "insert" and len(x["args"]) == 2:
+                r = peel(x["recv"], methods=False)
+                ty = str(r.get("ty", ""))
+                if r["k"] == "Field" and peel(r["e"], methods=False).get("name") == "self" and ("HashMap<" in ty or "BTreeMap<" in ty):
+                    sites.append((r["name"], x))
+        if not sites:
+            continue
+        looked = {peel(c["recv"], methods=False)["name"] for c in walk_exprs(h) if c["k"] == "MCall" and c["m"] in ("get", "contains_key", "get_mut", "entry") and
+                  peel(c["recv"], methods=False)["k"] == "Field" and peel(peel(c["recv"], methods=False)["e"], methods=False).get("name") == "self"}
+        sites = [(fl, x) for fl, x in sites if fl in looked]
+        if not sites:
+            continue
+        n_fns += 1
+        locs = Locals(h)
+        params = {p_["id"]: p_.get("name") for p_ in f["params"] if p_.get("id") and p_.get("name") != "self"}
+        assigns = {}
+        for x in walk_exprs(h):
+            if x["k"] in ("Assign", "AssignOp"):
+                l_ = peel(x["l"], methods=False)
+                if l_["k"] == "Path" and l_.get("rk") == "Local":
+                    assigns.setdefault(l_["res"], []).append(x["r"])
+
+        def deps(e, seen=None):
+            seen = set() if seen is None else seen
+            out = set()
+            for y in walk_exprs(e):
+                if y["k"] == "Path" and y.get("rk") == "Local":
+                    i_ = y["res"]
+                    if i_ in params:
+                        out.add(params[i_])
+                    elif i_ not in seen:
+                        seen.add(i_)
+                        for d_ in [locs.defs.get(i_), locs.payload_defs.get(i_)] + assigns.get(i_, []):
+                            if d_ is not None:
+                                out |= deps(d_, seen)
+            return out
+        for fl, x in sites:
+            n_sites += 1
+            kd = deps(x["args"][0])
+            vd = deps(x["args"][1])
+            for g in guards_of(h, x) or []:
+                if g[0] in ("if", "match") and isinstance(g[1], dict):
+                    vd |= deps(g[1]["init"] if g[1].get("k") == "LetE" else g[1])
+            missing = sorted(vd - kd)
+            ctx.obligation(not missing)
+            if missing:
+                ctx.violation("memo-key/%s/%s" % (short(name, 1), fl), ctx.where(name, x),
+                              "the value stored in `self.%s` is computed from the parameter%s %s of %s, which the key `%s` does not contain: the next call with another "
+                              "%s and the same key is answered with this value" % (fl, "s" if len(missing) > 1 else "", ", ".join("`%s`" % m_ for m_ in missing), short(name, 1),
+                                                                                 render(x["args"][0])[:60], missing[0]))
+    ctx.covered("memo maps kept in self (looked up and filled in one function): the key contains every parameter the stored value is computed from", n_sites,
+                distinct_keys=["fns:%d" % n_fns, "sites:%d" % n_sites])
+    ctx.floor(n_sites, 6, "memo insertion sites (the pattern cache of conforms)", "searcher.rs")
